@@ -432,3 +432,20 @@ Proof.
   split; [repeat constructor; cbn; intuition discriminate|].
   intros p k [H|[H|[]]]; inversion H; subst; split; try discriminate; reflexivity.
 Qed.
+
+(* ---- OPEN / Create on the name space ---- *)
+Theorem open_effect : forall creat excl wr t p c t', wf t -> p_open creat excl wr t p = Some (c, t') ->
+  wf t' /\ (c <> TOk -> t' = t) /\
+  (t' = t \/ (c = TOk /\ creat = true /\ kind_at t p = None /\ t' = t ++ [(p, KFile)])).
+Proof.
+  intros creat excl wr t p c t' Hwf H. unfold p_open in H. destruct p as [|p0 p]; [discriminate|].
+  destruct (parent_look t (p0 :: p)) as [[| |]| | |] eqn:Ep; try discriminate;
+    try (inversion H; subst; split; [exact Hwf | split; [reflexivity | left; reflexivity]]).
+  destruct (kind_at t (p0 :: p)) as [[| |]|] eqn:Ek; try discriminate.
+  - destruct (wr || creat); inversion H; subst; (split; [exact Hwf | split; [reflexivity | left; reflexivity]]).
+  - destruct (creat && excl); inversion H; subst; (split; [exact Hwf | split; [reflexivity | left; reflexivity]]).
+  - destruct creat; inversion H; subst.
+    + split; [apply wf_snoc; [exact Hwf | discriminate | exact Ek | apply parent_dir; exact Ep]|].
+      split; [congruence|]. right. repeat split; reflexivity.
+    + split; [exact Hwf | split; [reflexivity | left; reflexivity]].
+Qed.
